@@ -22,6 +22,27 @@ INTS = {"zero": 0, "one": 1, "max31": 0x7FFFFFFF, "max32": 0xFFFFFFFF, "neg1": -
 XML_KINDS = ["unbalanced", "huge-attr", "wrong-ns", "entity", "deep", "bad-utf8", "empty", "no-root", "text-bomb", "doctype"]
 
 
+DICTS = {
+    "rtf": [b"\\'", b"\\'zz", b"\\'4", b"\\'\n", b"\\u", b"\\u-1?", b"\\u65536 ", b"\\u-32768\\u-9156?", b"\\uc0 ", b"\\uc9999 ", b"\\bin5 ", b"\\bin99999999 ", b"{", b"}", b"{\\*\\", b"\\pict ", b"\\par ",
+            b"\\cell ", b"\\row ", b"\\trowd ", b"\\page ", b"\\ansicpg65001 ", b"\\ansicpg0 ", b"\\ansicpg99999 ", b"{\\fonttbl", b"{\\info", b"\\", b"\\\n", b"\\~", b"\x00", b"{\\object\\objdata ", b"\\deleted ",
+            b"\\fcharset128 ", b"\\f99999 ", b"\\-", b"\\sect ", b"\\footnote ", b"{\\field{\\*\\fldinst HYPERLINK \"x\"}{\\fldrslt y}}", b"\\upr", b"\\ud"],
+    "html": [b"<", b">", b"<!--", b"-->", b"<![CDATA[", b"]]>", b"<script>", b"</script>", b"<style>", b"<table>", b"</table>", b"<tr>", b"<td colspan=99999999>", b"<td rowspan=-1>", b"&#x110000;", b"&#99999999999;",
+             b"&bogus;", b"&#xD800;", b"<meta charset=bogus>", b"<meta charset=utf-16>", b"<meta http-equiv=Content-Type content='text/html; charset=x-user-defined'>", b"\x00", b"<br", b"<a href=", b"</", b"<svg>",
+             b"<?xml version='1.0' encoding='bogus'?>", b"<!DOCTYPE", b"<li>", b"<ol start=x>", b"<h7>", b"<img src=data:image/png;base64,AAAA>", b"<title>", b"<base href=", b"\xff\xfe", b"<p/>"],
+    "mail": [b"\nFrom ", b"\n\n", b"\nContent-Type: multipart/mixed; boundary=x\n", b"\n--x\n", b"\n--x--\n", b"\nContent-Transfer-Encoding: base64\n", b"\nContent-Transfer-Encoding: quoted-printable\n",
+             b"=?utf-8?b?////?=", b"=?bogus?q?x?=", b"=?utf-8?q?=ZZ?=", b"\nContent-Type: message/rfc822\n", b"\nContent-Type: text/html; charset=bogus\n", b"\nDate: garbage\n", b"\nDate: Thu, 99 Jan 2024 25:61:61 +9999\n", b"=\n",
+             b"=ZZ", b"\r", b"\nContent-Disposition: attachment; filename*=utf-8''%ff\n", b"\nSubject: \n\t\n", b"\nTo: <>, a@, @b, \"x\n", b"\nContent-Type: text/plain; charset=\"utf-16\"\n", b"\nMIME-Version: 1.0\n",
+             b"\nContent-Type: multipart/related; boundary=\"\"\n", b"\nContent-Location: file:///x\n", b"\x00", b"\nFrom nobody Thu Jan  1 00:00:00 1970\n", b">From ", b"\nSubject: Gr\xfc\xdfe\n", b"\xff", b"\nX-Bin: \x80\x81\n", b"\nFrom: \xe4 <a@b.c>\n", b"\nContent-Type: text/plain; charset=\xff\n"],
+    "pdf": [b" obj", b"endobj", b"stream\n", b"\nendstream", b"xref", b"trailer", b"startxref", b"<<", b">>", b"/Length 99999999", b"/Kids [1 0 R]", b"/Parent 1 0 R", b"/Filter /FlateDecode", b"/Filter /LZWDecode",
+            b"/Filter [/ASCIIHexDecode /FlateDecode]", b"/Filter /DCTDecode", b"/Encrypt 1 0 R", b"/Prev 0", b"/Type /ObjStm", b"/Type /XRef", b"0 0 R", b"(", b")", b"\\", b"BT", b"ET", b" Tj", b"/ToUnicode 1 0 R",
+            b"beginbfrange", b"<FFFF> <0000> <0041>", b"/Count -1", b"/Count 99999999", b"/MediaBox [0 0 0 0]", b"/Rotate 45", b"/W [1 2 1]", b"/Index [0 99999999]", b"/Size 0", b"%%EOF", b"/Contents [", b"/Subtype /Image",
+            b"/Width 99999999", b"/ColorSpace [/Indexed /DeviceRGB 255 1 0 R]", b"/DecodeParms << /Predictor 12 /Columns 0 >>", b"ID", b"EI"],
+    "text": [b'"', b",", b"\n", b"\r", b"\x00", b"\xff\xfe", b"\xfe\xff", b"\xef\xbb\xbf", b"{", b"[", b"}", b"]", b"\\u", b"\\ud800", b"1e999", b"\t", b"|", b"#", b"```", b"\xc3", b"\xe2\x82", b"\xf4\x90\x80\x80", b";", b"'", b":"],
+}
+LEAD = {"rtf": b"\\", "html": b"<", "mail": b"\n", "pdf": b"/", "text": b"\n"}
+DICT_FOR = {"rtf": "rtf", "html": "html", "mhtml": "mail", "eml": "mail", "mbox": "mail", "pdf": "pdf", "txt": "text", "csv": "text", "json": "text", "md": "text"}
+
+
 def _pos(data, f):
     return min(len(data) - 1, int(f * len(data))) if data else 0
 
@@ -67,6 +88,14 @@ def apply_one(data: bytes, r: dict, others: list[bytes] | None = None) -> bytes:
         p, q = _pos(data, r["pos"]), _pos(o, r["opos"])
         n = max(1, int(r["len"] * min(len(o) - q, 8192)))
         return data[:p] + o[q:q + n] + data[p:]
+    if op == "dict":
+        toks = DICTS[r["fmt"]]
+        tok = toks[r["tok"] % len(toks)]
+        p = int(r["pos"] * len(data))
+        if r.get("snap"):          # move to just after the nearest following occurrence of the format's lead byte (a control word, a tag, a header line)
+            q = data.find(LEAD[r["fmt"]], p)
+            p = q if q >= 0 else p
+        return data[:p] + tok + (data[p + len(tok):] if r.get("over") else data[p:])
     if op.startswith("zip-"):
         return _zip_mutate(data, r, others)
     if op == "ole-stream":
@@ -177,9 +206,16 @@ def byte_recipe():
     )
 
 
-def recipes(container: str | None):
-    """container: 'zip' | 'ole' | None"""
+def dict_recipe(fmt: str):
+    return st.fixed_dictionaries({"op": st.just("dict"), "fmt": st.just(fmt), "pos": _F, "tok": st.integers(0, 63), "over": st.booleans(), "snap": st.booleans()})
+
+
+def recipes(container: str | None, ext: str | None = None):
+    """container: 'zip' | 'ole' | None; ext selects a token dictionary for the text-like formats"""
     base = st.lists(byte_recipe(), min_size=1, max_size=3)
+    if ext in DICT_FOR:
+        d = dict_recipe(DICT_FOR[ext])
+        return st.one_of(base, st.lists(d, min_size=1, max_size=3), st.lists(st.one_of(d, d, byte_recipe()), min_size=1, max_size=4))
     if container == "zip":
         zipops = st.one_of(
             st.fixed_dictionaries({"op": st.just("zip-member"), "member": _F, "inner": st.lists(byte_recipe(), min_size=1, max_size=3)}),
